@@ -292,10 +292,13 @@ func genFactor(kd fkind) func(g *vlib.G) {
 		if !kd.hasBlocked {
 			nbs, nxs = []int{1}, []int{0}
 		}
-		fams := generalFams(N, false)
+		fams := generalFams(N, true)
 		for m := 0; m <= N; m++ {
 			for n := 0; n <= N; n++ {
 				for _, f := range fams {
+					if j, ok := posFam(f.name); ok && j >= n {
+						continue
+					}
 					for _, nb := range nbs {
 						for _, nx := range nxs {
 							m, n, f, nb, nx := m, n, f, nb, nx
@@ -507,7 +510,7 @@ func genOrg(ok okind) func(g *vlib.G) {
 		if !ok.hasBlocked {
 			nbs, nxs = []int{1}, []int{0}
 		}
-		fams := pickFams(generalFams(N, false), "dd", "sparse")
+		fams := pickFams(generalFams(N, false), "dd", "sparse", "signmix")
 		nm := ok.name
 		if !ok.hasBlocked {
 			nm = ok.unbName
@@ -675,7 +678,7 @@ func genOrm(mk mkind) func(g *vlib.G) {
 		if !mk.hasBlocked {
 			nbs = []int{1}
 		}
-		fams := pickFams(generalFams(N, false), "dd", "sparse")
+		fams := pickFams(generalFams(N, false), "dd", "sparse", "signmix")
 		nm := mk.name
 		if !mk.hasBlocked {
 			nm = mk.unbName
